@@ -15,6 +15,8 @@
 (*   possible: what is missing can be reconstructed from what survives     *)
 (*             (ground truth: unusable slices/files <= usable recovery     *)
 (*             blocks/volumes)                                             *)
+(*   iofail  : an I/O call of the operation fails (e.g. a write into a     *)
+(*             directory that no longer exists)                            *)
 (* 0 only when the operation fully succeeded; verify 1 / 2; repair 2 when  *)
 (* needed but impossible; usage errors 3; every other failure another      *)
 (* non-zero status (not 0, and not one of the statuses with a meaning of   *)
@@ -30,6 +32,7 @@ Admissible(c) ==
   ELSE IF c.ext = "unknown" THEN Other
   ELSE IF c.cmd = "create" THEN (IF c.inputs_ok THEN {0} ELSE Other)
   ELSE IF ~c.index_ok THEN Other
+  ELSE IF c.iofail THEN Other          \* an I/O failure during the operation: "every other failure"
   ELSE IF c.cmd = "verify" THEN (IF ~c.needed THEN {0} ELSE IF c.possible THEN {1} ELSE {2})
   ELSE (IF ~c.needed THEN {0} ELSE IF c.possible THEN {0} ELSE {2})
 
